@@ -402,6 +402,16 @@ void ezc3d::c3d::analog(const std::vector<ezc3d::DataNS::Frame> &frames)
     updateParameters();
 }
 
+// Frames created by extending the data set are left empty,
+// the shape of the data is therefore given by the first frame that holds something
+static size_t firstFilledFrame(const ezc3d::DataNS::Data &data)
+{
+    for (size_t f = 0; f < data.nbFrames(); ++f)
+        if (data.frame(f).points().nbPoints() != 0 || data.frame(f).analogs().nbSubframes() != 0)
+            return f;
+    return 0;
+}
+
 void ezc3d::c3d::updateHeader()
 {
     // Parameter is always consider as the right value. If there is a discrepancy between them, change the header
@@ -415,9 +425,10 @@ void ezc3d::c3d::updateHeader()
     }
 
     // Compare the subframe with data when possible, otherwise go with the parameters
-    if (_data != nullptr && data().nbFrames() > 0 && data().frame(0).analogs().nbSubframes() != 0) {
-        if (data().frame(0).analogs().nbSubframes() != static_cast<size_t>(header().nbAnalogByFrame()))
-            _header->nbAnalogByFrame(data().frame(0).analogs().nbSubframes());
+    size_t ref(_data != nullptr ? firstFilledFrame(data()) : 0);
+    if (_data != nullptr && data().nbFrames() > 0 && data().frame(ref).analogs().nbSubframes() != 0) {
+        if (data().frame(ref).analogs().nbSubframes() != static_cast<size_t>(header().nbAnalogByFrame()))
+            _header->nbAnalogByFrame(data().frame(ref).analogs().nbSubframes());
     } else {
         // Should always be greater than 0, but we have to take in account Optotrak lazyness
         if (parameters().group("ANALOG").nbParameters()){
@@ -455,6 +466,7 @@ void ezc3d::c3d::updateParameters(const std::vector<std::string> &newPoints, con
     // If frames has been added
     ezc3d::ParametersNS::GroupNS::Group& grpPoint(_parameters->group_nonConst(parameters().groupIdx("POINT")));
     size_t nFrames(data().nbFrames());
+    size_t ref(firstFilledFrame(data()));
     if (nFrames != static_cast<size_t>(grpPoint.parameter("FRAMES").valuesAsInt()[0])){
         size_t idx(grpPoint.parameterIdx("FRAMES"));
         grpPoint.parameter_nonConst(idx).set(nFrames);
@@ -463,7 +475,7 @@ void ezc3d::c3d::updateParameters(const std::vector<std::string> &newPoints, con
     // If points has been added
     size_t nPoints;
     if (data().nbFrames() > 0)
-        nPoints = data().frame(0).points().nbPoints();
+        nPoints = data().frame(ref).points().nbPoints();
     else
         nPoints = parameters().group("POINT").parameter("LABELS").valuesAsString().size() + newPoints.size();
     if (nPoints != static_cast<size_t>(grpPoint.parameter("USED").valuesAsInt()[0])){
@@ -483,7 +495,7 @@ void ezc3d::c3d::updateParameters(const std::vector<std::string> &newPoints, con
                 else
                     name = newPoints[i - parameters().group("POINT").parameter("LABELS").valuesAsString().size()];
             } else {
-                name = data().frame(0).points().point(i).name();
+                name = data().frame(ref).points().point(i).name();
             }
             labels.push_back(name);
             descriptions.push_back("");
@@ -498,8 +510,8 @@ void ezc3d::c3d::updateParameters(const std::vector<std::string> &newPoints, con
     ezc3d::ParametersNS::GroupNS::Group& grpAnalog(_parameters->group_nonConst(parameters().groupIdx("ANALOG")));
     size_t nAnalogs;
     if (data().nbFrames() > 0){
-        if (data().frame(0).analogs().nbSubframes() > 0)
-            nAnalogs = data().frame(0).analogs().subframe(0).nbChannels();
+        if (data().frame(ref).analogs().nbSubframes() > 0)
+            nAnalogs = data().frame(ref).analogs().subframe(0).nbChannels();
         else
             nAnalogs = 0;
     } else
@@ -519,7 +531,7 @@ void ezc3d::c3d::updateParameters(const std::vector<std::string> &newPoints, con
                 else
                     name = newAnalogs[i-parameters().group("ANALOG").parameter("LABELS").valuesAsString().size()];
             } else {
-                name = data().frame(0).analogs().subframe(0).channel(i).name();
+                name = data().frame(ref).analogs().subframe(0).channel(i).name();
             }
             labels.push_back(name);
             descriptions.push_back("");
